@@ -332,6 +332,12 @@ fn op_decode(case: &Value) -> Value {
     }
     let header = RecordHeader::from_record(&record).ok().map(|h| h.kind);
     let is_chunk = RecordHeader::is_record_of_type_chunk(&record).ok();
+    // RecordHeader::try_deserialize on exactly the first SIZE bytes (null when the value is shorter)
+    let td2 = if record.value.len() >= RecordHeader::SIZE {
+        json!({"kind": RecordHeader::try_deserialize(&record.value[..RecordHeader::SIZE]).ok().map(|h| kind_name(h.kind))})
+    } else {
+        Value::Null
+    };
     // the typed layer: as the kind the header announces, or as the kind the case asks for
     let as_kind = case.get("as").and_then(|k| k.as_str()).map(kind_of).or(header);
     let value = match as_kind {
@@ -359,22 +365,34 @@ fn op_decode(case: &Value) -> Value {
         Some(RecordKind::Register) => typed::<SignedRegister>(&record),
         Some(RecordKind::RegisterWithPayment) => typed::<(ProofOfPayment, SignedRegister)>(&record),
     };
-    json!({"header": header.map(kind_name), "is_chunk": is_chunk, "as": as_kind.map(kind_name), "value": value})
+    json!({"header": header.map(kind_name), "is_chunk": is_chunk, "td2": td2, "as": as_kind.map(kind_name), "value": value})
 }
 
 /// every 0..3-byte value and every 3-byte prefix through RecordHeader::from_record
 fn op_sweep() -> Value {
     let mut accepted = vec![];
     let mut short_ok = 0u32;
+    // is_record_of_type_chunk against from_record: (value, from_record, is_chunk) where they disagree
+    let mut chunk_mismatch: Vec<Value> = vec![];
+    let mut check_chunk = |b: &Vec<u8>| {
+        let r = record_of(b.clone());
+        let want = RecordHeader::from_record(&r).ok().map(|h| h.kind == RecordKind::Chunk);
+        let got = RecordHeader::is_record_of_type_chunk(&r).ok();
+        if want != got && chunk_mismatch.len() < 20 {
+            chunk_mismatch.push(json!({"value": hex::encode(b), "from_record_says": want, "is_chunk_says": got}));
+        }
+    };
     for len in 0..3usize {
         let n = 1u32 << (8 * len);
         for x in 0..n {
             let b: Vec<u8> = (0..len).map(|i| (x >> (8 * (len - 1 - i))) as u8).collect();
+            check_chunk(&b);
             if RecordHeader::from_record(&record_of(b)).is_ok() { short_ok += 1; }
         }
     }
     for x in 0..(1u32 << 24) {
         let b = vec![(x >> 16) as u8, (x >> 8) as u8, x as u8];
+        check_chunk(&b);
         if let Ok(h) = RecordHeader::from_record(&record_of(b)) {
             accepted.push(json!([x, kind_name(h.kind)]));
         }
@@ -389,7 +407,8 @@ fn op_sweep() -> Value {
         let b = RecordHeader::from_record(&record_of(b5)).ok().map(|h| kind_name(h.kind));
         if a != b { longer_differs += 1; }
     }
-    json!({"accepted": accepted, "short_ok": short_ok, "longer_differs": longer_differs})
+    drop(check_chunk);
+    json!({"accepted": accepted, "short_ok": short_ok, "longer_differs": longer_differs, "chunk_mismatch": chunk_mismatch})
 }
 
 /// the header of every kind, as bytes, and what try_deserialize makes of exactly those bytes
